@@ -111,7 +111,7 @@ def gen(rng, tier, k):
                         ie=[rng.random() < 0.5, rng.random() < 0.5], ie_bool=rng.random() < 0.2, head=rng.random() < 0.5, tail=rng.random() < 0.5,
                         end=rng.random() < 0.5, dflt=rng.random() < 0.35, foreign=rng.random() < 0.3))
     return dict(cls=cname, style=style, offsets=offs, vseed=rng.randrange(10**6), via=rng.choice(["items", "items", "from_dict_rows", "from_dict_cols", "from_dict_partial"]),
-                empty_n=rng.choice([0, 1, 3, 7]), ops=ops)
+                empty_n=rng.choice([0, 1, 3, 7]), ops=ops, ints=rng.random() < 0.2)
 
 
 def setup(ctx):
@@ -147,6 +147,8 @@ def run(ctx, case):
         for name, (dt, default) in props.items():
             v = gen_value(rng, name, dt, default)
             r[name] = o if name == "offset" else _b(v)
+            if case.get("ints") and name in ("offset", "length") and isinstance(r[name], float) and r[name].is_integer():
+                r[name] = int(r[name])  # whole numbers given as Python ints: the column gets an integer dtype
         rows.append(r)
 
     def mk_item(r):
